@@ -1013,7 +1013,8 @@ where
             let (props, consumed) = Properties::parse(&data_arc[cursor..])?;
             cursor += consumed;
             property_validation = validate_publish_properties(&props)?;
-            let prop_len = VariableByteInteger::from_u32(props.size() as u32).unwrap();
+            let prop_len = VariableByteInteger::from_len(props.size())
+                .map_err(|_| MqttError::MalformedPacket)?;
             (prop_len, props)
         } else {
             (VariableByteInteger::from_u32(0).unwrap(), Properties::new())
@@ -1047,7 +1048,8 @@ where
 
         let publish = GenericPublish {
             fixed_header: [fixed_header_byte],
-            remaining_length: VariableByteInteger::from_u32(remaining_size as u32).unwrap(),
+            remaining_length: VariableByteInteger::from_len(remaining_size)
+                .map_err(|_| MqttError::MalformedPacket)?,
             topic_name_buf: topic_name,
             packet_id_buf,
             property_length,
